@@ -1225,7 +1225,7 @@ func c09Setup(t *testing.T) {
 
 func TestVerifC09Calculate(t *testing.T) {
 	c09Setup(t)
-	kit.Run(t, kit.Config{Property: "C09", Unit: "calculate", Quick: 10000, Thorough: 50000,
+	kit.Run(t, kit.Config{Property: "C09", Unit: "calculate", Quick: 10000, Thorough: 600000,
 		Rule: "random node (1-512 CPU, up to 4 TiB, kubelet/annotation reservations), 0-12 pods over priority class x QoS x phase x with/without metric x NUMA binding (class expressed by label, priority band, QoS default or kube-QoS default), dangling metrics, host applications, system usage, 0/1/2/4 NUMA zones, cpu policy usage/maxUsageRequest x memory policy usage/request/maxUsageRequest x reclaim thresholds 0-200 (field or node label) x percentage caps present/absent; fresh metric; 15% steered so that a bound lands within one unit of zero; each input is followed by 3 monotonicity probes (one consumption input raised, or a batch/free pod added), each probe result is bound-checked too; distinct = (cpu policy, mem policy, caps set, no-metric HP pods?, LSE?, dangling?, host apps?, zones, system usage above reservation per resource, clamp hit per resource); non-trivial = at least one high-priority pod and a node amount strictly between zero and capacity"},
 		func(c *kit.Case) {
 			r := c.R
@@ -1297,7 +1297,7 @@ func TestVerifC09Calculate(t *testing.T) {
 
 func TestVerifC09Degrade(t *testing.T) {
 	c09Setup(t)
-	kit.Run(t, kit.Config{Property: "C09", Unit: "degrade", Quick: 3000, Thorough: 20000,
+	kit.Run(t, kit.Config{Property: "C09", Unit: "degrade", Quick: 3000, Thorough: 200000,
 		Rule: "same input generator; the node metric's age is placed around the degrade time (d-1s, d, d+1ns, d+1s, 2d, years, 0, from the future) or the status has no update time / the NodeMetric object is empty; stale or missing => both items must be resets without quantities; fresh results are bound-checked; distinct = (degrade minutes, age class, metric kind, outcome); non-trivial = stale or missing metric"},
 		func(c *kit.Case) {
 			r := c.R
